@@ -88,8 +88,12 @@ func classify(text string, null bool) rcell {
 			c.Tern = "F"
 		}
 	}
-	if tm, err := time.Parse("2006-01-02 15:04:05", text); err == nil {
-		c.HasD, c.D = true, tm.Unix()-1300000000
+	// (csvq reads a text as a datetime after trimming it; of its many notations the generators use these two)
+	for _, layout := range []string{"2006-01-02 15:04:05", "2006-01-02"} {
+		if tm, err := time.Parse(layout, t); err == nil {
+			c.HasD, c.D = true, tm.Unix()-1300000000
+			break
+		}
 	}
 	return c
 }
@@ -334,6 +338,20 @@ func genTextBool(r *core.Run, row int) (string, bool) {
 	}
 	if r.Rand.Intn(4) == 0 {
 		return []string{"t", "true", " True"}[r.Rand.Intn(3)], false
+	}
+	return textPool[r.Rand.Intn(len(textPool))], false
+}
+
+// texts among which some read as one and the same instant ('2020-01-01', '2020-01-01 00:00:00'): equal to each other as
+// datetimes, and ordered as texts against the other texts ('2020-01-01' < 'a' is TRUE: nothing else applies to the pair).
+// (Texts reading as different instants in notations whose alphabetical and chronological orders differ are not mutually
+// comparable with the other texts and stay outside.)
+func genTextDT(r *core.Run, row int) (string, bool) {
+	if r.Rand.Intn(8) == 0 {
+		return "", true
+	}
+	if r.Rand.Intn(4) == 0 {
+		return []string{"2020-01-01", "2020-01-01 00:00:00", " 2020-01-01"}[r.Rand.Intn(3)], false
 	}
 	return textPool[r.Rand.Intn(len(textPool))], false
 }
